@@ -207,29 +207,67 @@ def _gen_case(c, case):
     if not _symmetric(brush):
         raise Inconclusive("brush is not point-symmetric")
     N = shape[0] * shape[1]
-    K = N
     tform = BrushConstraint2D(brush=jnp.asarray(brush), axis=2)
     fn = tform._generator
     arr = jx.symarr("a", shape)
     c.symvars += N
     box = [z3.And(*[z3.And(v >= -1, v <= 1) for v in arr.reshape(-1)])]
-    t0 = time.time()
-    it = BrushInterp(unroll_bound=K)
-    out, tr = jx.call(fn, arr, interp=it)
-    c.interp_s += time.time() - t0
-    _check_outputs(c, case, "BrushConstraint2D._generator", arr, box, it, _tobool(out), lambda d: np.asarray(fn(jnp.asarray(d))).astype(bool), K, brush)
+    run = lambda d: np.asarray(fn(jnp.asarray(d))).astype(bool)
+    what = "BrushConstraint2D._generator"
+    it, out, tr, K = _unroll(c, what, fn, arr, box, N, run)
+    _check_outputs(c, case, what, arr, box, it, _tobool(out), run, K, brush)
     # translator validation: the unrolled interpretation on concrete designs against the real loop
     rng = np.random.default_rng(c.seed + 25)
     for _ in range(2):
         d = np.round(rng.uniform(-1, 1, size=shape), 3)
-        c.validate(jx.to_numeric(tr(jx.fracarr(d), interp=BrushInterp(unroll_bound=4 * K))).astype(np.float64), np.asarray(fn(jnp.asarray(d))).astype(np.float64), "generator")
-    # vacuity twin for the unwinding assertion: with a bound of 2 it is violated by some design
-    it2 = BrushInterp(unroll_bound=2)
-    tr(arr, interp=it2)
-    c.witness("the loop needs more than 2 iterations for some design", z3.Not(z3.And(*it2.unwinding)) if it2.unwinding else False, box)
+        c.validate(jx.to_numeric(tr(jx.fracarr(d), interp=BrushInterp(unroll_bound=4 * N))).astype(np.float64), np.asarray(fn(jnp.asarray(d))).astype(np.float64), "generator")
     c.extra["eqns"] = tr.n_eqns
     c.extra["while_iterations_unrolled"] = it.stats["while_iters"]
     c.bounds.update(shape=list(shape), brush=case["brush"], K=K)
+
+
+def _unroll(c, what, fn, arr, box, N, run, dtypes=None):
+    """bounded model checking of the loop: unroll K times and prove the unwinding assertion ("after K iterations the loop
+    predicate is false").  K is searched upwards from #pixels/2: a design that needs more than K iterations is not a
+    violation (the statement only says "terminates"), it only shows that this K is too small; the obligation that counts
+    is the one at the first K whose unwinding assertion the solver proves, and at K = #pixels a witness is replayed on the
+    real loop (it violates the statement if the real loop makes no progress / exceeds 4 * #pixels iterations)."""
+    tr = None
+    K0 = max(2, N // 2)
+    for K in range(K0, N + 1):
+        t0 = time.time()
+        it = BrushInterp(unroll_bound=K)
+        if tr is None:
+            out, tr = jx.call(fn, arr, interp=it, dtypes=dtypes)
+        else:
+            out = tr(arr, interp=it)
+        c.interp_s += time.time() - t0
+        if not it.unwinding:
+            raise Inconclusive("the loop predicate never became symbolic: nothing was unrolled")
+        if K == K0:
+            # vacuity twin of the unwinding assertion: at a bound of 1 it is violated by some design
+            it1 = BrushInterp(unroll_bound=1)
+            tr(arr, interp=it1)
+            c.witness("the loop needs more than 1 iteration for some design", z3.Not(z3.And(*it1.unwinding)) if it1.unwinding else False, box)
+
+        def replay_term(model, K=K):
+            d = model_array(model, arr)
+            o, info = run_real(lambda: run(d), 4 * N + 8)
+            return bool(info["stuck"]), dict(design=d, iterations=info["iterations"], no_progress=info["stuck"], bound=K)
+
+        snap = (c.obligations, c.discharged, c.trivial, len(c.inconclusive), len(c.violations), len(c.samples))
+        last = K == N
+        if c.prove(f"{what}:terminates within {K} iterations", z3.And(*it.unwinding), box, replay_term if last else None,
+                   key=f"{what}:no_termination"):
+            c.extra["unwinding_bound"] = K
+            return it, out, tr, K
+        if last:
+            return it, out, tr, K
+        if any("unknown" in m for m in c.inconclusive[snap[3]:]):
+            return it, out, tr, K  # the solver gave up at this K: a larger K will not be easier
+        c.obligations, c.discharged, c.trivial = snap[0], snap[1], snap[2]
+        del c.inconclusive[snap[3]:], c.violations[snap[4]:], c.samples[snap[5]:]
+    raise Inconclusive("unreachable")
 
 
 def _check_outputs(c, case, what, arr, box, it, P, run, K, brush, solid_is=True):
@@ -241,34 +279,30 @@ def _check_outputs(c, case, what, arr, box, it, P, run, K, brush, solid_is=True)
         S[idx] = P[idx]
         V[idx] = sc.not_(P[idx])
 
-    def replay_term(model):
-        d = model_array(model, arr)
-        out, info = run_real(lambda: run(d), 4 * K + 8)
-        return bool(info["stuck"] or info["iterations"] > K), dict(design=d, iterations=info["iterations"], no_progress=info["stuck"], bound=K)
-
     def replay(model):
         d = model_array(model, arr)
-        out, info = run_real(lambda: run(d), 4 * K + 8)
+        out, info = run_real(lambda: run(d), 4 * int(np.prod(shape)) + 8)
         if out is None:
             return True, dict(design=d, no_progress=True, iterations=info["iterations"])
         bs, bv = feasible_np(out, fps), feasible_np(~out, fps)
         return bool(bs.any() or bv.any()), dict(design=d, output=out.astype(int), solid_pixels_in_no_contained_footprint=bs.astype(int),
                                                 void_pixels_in_no_contained_footprint=bv.astype(int), iterations=info["iterations"])
 
-    if not it.unwinding:
-        raise Inconclusive("the loop predicate never became symbolic: nothing was unrolled")
-    c.prove(f"{what}:terminates within {K} iterations", z3.And(*it.unwinding), box, replay_term, key=f"{what}:no_termination_within_bound")
+    # the K-times unrolled output is the output of the real loop on every design for which the unwinding assertion holds
+    # (proved above for all designs in the box; kept as an explicit hypothesis so that these claims never rest on a
+    # truncated run)
+    hyp = box + [z3.And(*it.unwinding)]
     for idx in np.ndindex(*shape):
-        c.prove(f"{what}:solid{list(idx)}", z3.Implies(sc.toz(S[idx]), sc.toz(covered_sym(S, fps, idx))), box, replay, key=f"{what}:solid_feature_smaller_than_brush")
-    for idx in np.ndindex(*shape):
-        c.prove(f"{what}:void{list(idx)}", z3.Implies(sc.toz(V[idx]), sc.toz(covered_sym(V, fps, idx))), box, replay, key=f"{what}:void_feature_smaller_than_brush")
-    c.witness("output has solid and void pixels", z3.And(sc.toz(_any(S.reshape(-1))), sc.toz(_any(V.reshape(-1)))), box)
+        c.prove(f"{what}:solid{list(idx)}", z3.Implies(sc.toz(S[idx]), sc.toz(covered_sym(S, fps, idx))), hyp, replay, key=f"{what}:solid_feature_smaller_than_brush")
+    c.prove(f"{what}:void (all pixels)", _all(z3.Implies(sc.toz(V[idx]), sc.toz(covered_sym(V, fps, idx))) for idx in np.ndindex(*shape)), hyp, replay,
+            key=f"{what}:void_feature_smaller_than_brush")
+    c.witness("output can have a solid pixel", sc.toz(_any(S.reshape(-1))), hyp)
+    c.witness("output can have a void pixel", sc.toz(_any(V.reshape(-1))), hyp)
 
 
 def _module_case(c, case):
     shape, brush, bg = tuple(case["shape"]), _brush(case["brush"]), case["bg"]
     N = shape[0] * shape[1]
-    K = N
     mats = {"Air": fdtdx.Material(permittivity=1.0), "Silicon": fdtdx.Material(permittivity=11.7)}
     tform = BrushConstraint2D(brush=jnp.asarray(brush), axis=2, background_material=None if bg == 0 else "Silicon")
     cfg = fdtdx.SimulationConfig(time=100e-15, grid=fdtdx.UniformGrid(spacing=500e-9), backend="cpu")
@@ -279,16 +313,15 @@ def _module_case(c, case):
     arr = jx.symarr("a", s3)
     c.symvars += N
     box = [z3.And(*[z3.And(v >= -1, v <= 1) for v in arr.reshape(-1)])]
-    t0 = time.time()
-    it = BrushInterp(unroll_bound=K)
-    out, tr = jx.call(fn, arr, interp=it)
-    c.interp_s += time.time() - t0
-    out = jx.lift(out)
     what = "BrushConstraint2D.__call__"
+    run = lambda d: np.asarray(fn(jnp.asarray(np.asarray(d).reshape(s3))))[..., 0] == (1 - bg)
+    it, out, tr, K = _unroll(c, what, fn, arr, box, N, run)
+    out = jx.lift(out)
+    hyp = box + [z3.And(*it.unwinding)]
 
     def replay_bin(model):
         d = model_array(model, arr)
-        o, info = run_real(lambda: np.asarray(fn(jnp.asarray(d))), 4 * K + 8)
+        o, info = run_real(lambda: np.asarray(fn(jnp.asarray(d))), 4 * N + 8)
         if o is None:
             return True, dict(design=d, no_progress=True)
         return bool((~np.isin(o, [0.0, 1.0])).any()), dict(design=d, output=o)
@@ -297,13 +330,13 @@ def _module_case(c, case):
     for idx in np.ndindex(*shape):
         o = out[idx + (0,)]
         is1, is0 = z3.simplify(sc.toz(sc.eq(o, 1))), z3.simplify(sc.toz(sc.eq(o, 0)))
-        c.prove(f"{what}:binary{list(idx)}", z3.Or(is0, is1), box, replay_bin, key=f"{what}:output_not_binary")
+        c.prove(f"{what}:binary{list(idx)}", z3.Or(is0, is1), hyp, replay_bin, key=f"{what}:output_not_binary")
         mat[idx] = is1 if bg == 0 else is0  # material = the non-background index
     # regions: index 1-bg is solid material for the oracle; feasibility is symmetric in solid/void anyway
-    _check_outputs(c, case, what, arr, box, it, mat, lambda d: np.asarray(fn(jnp.asarray(d.reshape(s3))))[..., 0] == (1 - bg), K, brush)
+    _check_outputs(c, case, what, arr, box, it, mat, run, K, brush)
     rng = np.random.default_rng(c.seed + 26)
     d = np.round(rng.uniform(-1, 1, size=s3), 3)
-    c.validate(jx.to_numeric(tr(jx.fracarr(d), interp=BrushInterp(unroll_bound=4 * K))).astype(np.float64), np.asarray(fn(jnp.asarray(d))).astype(np.float64), "module")
+    c.validate(jx.to_numeric(tr(jx.fracarr(d), interp=BrushInterp(unroll_bound=4 * N))).astype(np.float64), np.asarray(fn(jnp.asarray(d))).astype(np.float64), "module")
     c.bounds.update(shape=list(shape), brush=case["brush"], K=K, background_index=bg)
 
 
